@@ -140,6 +140,9 @@ class Prop:
                 if len(smeta) % (1 if ctx.tier == 'thorough' else 3) == 0 or l[7:11].count(b',') >= 1:
                     sops.append('decode 1 %s' % l.hex())
                 smeta.append(l)
+        # the lines with a two-byte character also through decode() (bytes and str arguments must agree: the family)
+        dops = ['decode 0 %s' % l.hex() for label, l in cases if label.startswith('subst2')]
+        ctx.corr(dops, impl.step, 'decode-utf8')
         souts = ctx.corr(sops, impl.step, 'decode-strict')
         for op, o in zip(sops, souts):
             if o != 'ERR:InvalidNMEAChecksum':
